@@ -1,6 +1,7 @@
 import ClusterVerif.Spec.C14
 import Driver.Parse
 import Driver.C14Crash
+import Driver.C14Start
 namespace CV.C14
 open CV.Parse
 
@@ -364,6 +365,7 @@ def answer (ws : List String) : String :=
   | "psfile" :: rest => answerPsFile rest
   | "crash" :: rest => answerCrash rest
   | "pscrash" :: rest => answerPsCrash rest
+  | "start" :: rest => answerStart rest
   | _ => "bad-case unknown-suite"
 
 end CV.C14
